@@ -195,6 +195,13 @@ func c20Run(raw json.RawMessage, c *mc.Ctx) {
 			p.Config["GroundWaterFrom"] = "polygonfile"
 			p.Config["GroundWaterPhase"] = fmt.Sprint(sp.Phase)
 			p.GWHi, p.GWLo = sp.GH, sp.GL
+			// the soil file still carries a groundwater level of its own (7 dm), which this source must not use;
+			// every second scenario reads the soil from the fixed-width text file
+			p.Soil.GW = 7
+			if (sp.GH+sp.GL+sp.Phase/10)%2 == 1 {
+				p.Config["SoilFileExtension"] = "txt"
+				p.Files = map[string]string{"soil_" + p.ID + ".txt": c13SoilTxt(p)}
+			}
 		}
 		if sp.Kind == "series" && sp.Shape > 0 {
 			ds := func(iso string) string { return proj.DateStr(sp.Format, proj.D(iso)) }
